@@ -659,6 +659,47 @@ def run_history(ctx, case, workdir, lines_b, impl_b, cases_b, direct, offers):
         cases_b.append(dict(case, at={"server": i, "version": v}))
 
 
+def direct_corpus(srv_strings):
+    """fixed cases for the direct verifier that run first (mechanisms of the seeded changes C33-a / C33-b, kept so that catching
+    them does not depend on the random stream)"""
+    from allmydata.crypto import ed25519
+    seeds = ["%02x" % (0x11 * (i + 1)) * 32 for i in range(N_GM)]
+    gms = _keys(seeds)
+    T = BASE_US
+
+    def body(server, exp):
+        return json.dumps({"expires": iso(exp, 0), "public_key": srv_strings[server].decode("ascii"), "version": 1},
+                          separators=(",", ":"), sort_keys=True).encode("utf-8")
+
+    def cert(g, server, exp, sig_of=None, kind="valid"):
+        b = body(server, exp)
+        signed = b if sig_of is None else sig_of
+        meta = {"kind": kind, "signer": g, "intact": sig_of is None, "server": server, "exp": exp, "wellformed": True}
+        if sig_of is not None:
+            meta["sig_of"] = sig_of.hex()
+        return {"certificate": b.hex(), "signature": ed25519.sign_data(gms[g][0], signed).hex(), "meta": meta}
+
+    def case(me, certs, times):
+        return {"gm_seeds": seeds, "keys": [0], "me": me, "certs": certs, "times": ["a%d" % t for t in times],
+                "srv_strings": [x.decode("ascii") for x in srv_strings]}
+    res = []
+    # C33-b mechanism: a genuine certificate and, in the same set, other bytes carrying the *same* signature (an expired one
+    # re-dated; another server's re-targeted) — listed after, and listed before, the genuine one; then the forged one alone in
+    # a later verifier for the same key
+    old = body(0, T - 10**9)
+    other = body(1, T + 10**9)
+    for certs in ([cert(0, 0, T - 10**9), cert(0, 0, T + 10**9, sig_of=old, kind="tamper-field")],
+                  [cert(0, 0, T + 10**9, sig_of=old, kind="tamper-field"), cert(0, 0, T - 10**9)],
+                  [cert(0, 1, T + 10**9), cert(0, 0, T + 10**9, sig_of=other, kind="tamper-field")],
+                  [cert(0, 0, T + 10**9, sig_of=old, kind="tamper-field")],
+                  [cert(0, 0, T + 10**9, sig_of=other, kind="tamper-field")]):
+        res.append(case(0, certs, [T - 2 * 10**9, T, T + 10**9 - 1, T + 10**9]))
+    # C33-a mechanism: this server's own certificate expires at T while another server's (same grid manager) runs on
+    res.append(case(0, [cert(0, 0, T), cert(0, 1, T + 10**9)], [T - 1, T, T + 1, T + 10**9 - 1, T + 10**9]))
+    res.append(case(0, [cert(0, 1, T + 10**9), cert(0, 0, T - 5)], [T - 6, T - 5, T]))
+    return res
+
+
 def history_corpus():
     """one server per documented certificate situation, every expiry walked (expiry-1us, expiry, +1us, +1ms)"""
     import random
@@ -685,7 +726,7 @@ def run(ctx):
             cases = [case]
     else:
         n = ctx.budget(600, 25000)
-        cases = []
+        cases = direct_corpus(srv_strings)
         for _ in range(n):
             c = gen_case(ctx.rng, srv_strings)
             c["srv_strings"] = [s.decode("ascii") for s in srv_strings]
